@@ -140,7 +140,9 @@ def forms_a64():
     for p in "vz":
         regs += [reg_a64(p, 5, "d", "2"), reg_a64(p, 31, "s", "4"), reg_a64(p, 0, "b", "16"), reg_a64(p, 7, "h", "8"), reg_a64(p, 2, "d")]
     regs += [reg_a64("v", 4, "d", None, 1), reg_a64("v", 9, "s", None, 3), reg_a64("z", 3, "s"), reg_a64("z", 30, "d"), reg_a64("p", 1, pred="m"), reg_a64("p", 2, pred="z"),
-             reg_a64("p", 3, "b"), reg_a64("p", 0)]
+             reg_a64("p", 3, "b"), reg_a64("p", 0),
+             # 128-bit element shape (pmull v0.1q, ...; SVE z0.q) and upper-case shape letters
+             reg_a64("v", 6, "q", "1"), reg_a64("z", 8, "q"), reg_a64("v", 10, "D", "2"), reg_a64("v", 11, "q", None, 0)]
     imms = [imm_a64("#5", 5), imm_a64("5", 5), imm_a64("#-3", -3), imm_a64("#0x10", 16), imm_a64("#0", 0), imm_a64("#4095", 4095), imm_a64("#0xff", 255), imm_a64("#-0x8", -8),
             imm_a64("#1.5", None, "double"), imm_a64("#2.0e+0", None, "double"), imm_a64("#1.0f", None, "float"),
             # exponent without sign, upper-case exponent letter and upper-case hexadecimal prefix are legal GNU as spellings
